@@ -122,7 +122,7 @@ def _gen_params(rng, small, tier="quick"):
         stock = xmax * rng.choice([10, 100, 100])
         min_transfer = rng.choice([1, 2, 3, 5, 10])
         vmax = [rng.randint(100, 1000 if small else 2000) for _ in range(C)]
-    if rng.random() < 0.05 and C >= 2:
+    if rng.random() < 0.07 and C >= 2:
         # replicate columns (xmin == xmax) from a stock of a round multiple, the later columns smaller than the first:
         # their stock transfer drops below min_transfer, so they are prepared from an earlier column - with
         # quotients that sit exactly on the limits
@@ -132,6 +132,24 @@ def _gen_params(rng, small, tier="quick"):
         vmax = [first] + [rng.choice([30, 40, 50, 100, first]) for _ in range(C - 1)]
         min_transfer = rng.choice([20, 20, 25, 10])
         mode = rng.choice(["log", "log", "linear"])
+        if rng.random() < 0.5:
+            # ... and those later columns hold no whole number of microlitres (a source that is almost as concentrated as
+            # the target: the whole-microlitre transfer that reaches the target is the column volume rounded UP)
+            vmax = [first] + [rng.choice([50.5, 40.7, 100.9, 30.25, 60.5, 100.1, first]) for _ in range(C - 1)]
+            min_transfer = rng.choice([20, 25, 30, 30, 50])
+            if rng.random() < 0.4:
+                xmin = xmax * rng.choice([0.99, 0.995, 0.98])
+    if rng.random() < 0.04:
+        # a very long series: nine to eleven decades below the stock (fractions of 1e-9 ... 1e-11 in the last columns)
+        C = max(C, rng.choice([6, 7, 8]))
+        if small:
+            R = min(R, max(1, EXEC_MAX_WELLS[tier] // C))
+        decades = rng.uniform(8.5, 11)
+        xmin = xmax / 10 ** decades
+        stock = xmax * rng.choice([1, 2, 10])
+        vmax = rng.choice([1000, 1000, 500])
+        min_transfer = rng.choice([5, 10, 10, 20])
+        mode = "log"
     if rng.random() < 0.012:
         # a column volume just above x.5 uL, a stock at the highest concentration and a min_transfer between the
         # whole microlitres below and above that volume: the only whole-microlitre transfer that reaches xmax is
